@@ -367,16 +367,21 @@ func run(r *vk.Run, c Case) (reachedCrash []bool) {
 func genBase(rng *rand.Rand, id int) Case {
 	c := Case{ID: id, Queue: []int{1, 2, 3, 1000}[rng.Intn(4)], TxSeed: rng.Int63()}
 	n := 6 + rng.Intn(14)
+	// a quarter of the scripts restart often (queues that survive several restarts while partly consumed)
+	restartFrom := 92
+	if id%4 == 3 {
+		restartFrom = 74
+	}
 	for i := 0; i < n; i++ {
 		switch p := rng.Intn(100); {
+		case p >= restartFrom:
+			c.Ops = append(c.Ops, "restart")
 		case p < 30:
 			c.Ops = append(c.Ops, fmt.Sprintf("inj:%d:%s", 1+rng.Intn(4), []string{"new", "new", "repeat", "dup"}[rng.Intn(4)]))
 		case p < 60:
 			c.Ops = append(c.Ops, "reap")
-		case p < 92:
-			c.Ops = append(c.Ops, "prod")
 		default:
-			c.Ops = append(c.Ops, "restart")
+			c.Ops = append(c.Ops, "prod")
 		}
 	}
 	return c
